@@ -757,6 +757,9 @@ async fn client_response(ctx: Ctx, spec: StreamSpec, mut fut: client::ResponseFu
 pub async fn client_requester(ctx: Ctx, mut sr: client::SendRequest<Bytes>, specs: Vec<StreamSpec>, done: Rc<RefCell<u32>>) {
     for spec in specs {
         yield_n(spec.start_delay).await;
+        if spec.start_gate {
+            poll_fn(sim::poll_gate).await;
+        }
         let idx = spec.idx;
         let id = call(&ctx, Op::Ready, idx, 0, 0, 0, false, None);
         let r = poll_fn(|cx| sr.poll_ready(cx)).await;
